@@ -11,8 +11,8 @@ code's order:
       none -> next class;
    c. `results` := rows of `k` with *any* of `cols` equal to the victim's id (a lazy select:
       evaluated again at every use);
-   d. some column of `cols` is `cascade=False` and `results` is not empty -> `SQLObjectIntegrityError`
-      (whatever was done before stays done);
+   d. some row of `k` holds the victim's id in a `cascade=False` column of `cols` ->
+      `SQLObjectIntegrityError` (whatever was done before stays done);
    e. every `cascade='null'` column of `cols` that holds the victim's id is set to NULL, row by row;
    f. if some column of `cols` is `cascade=True`: every row of `results` (re-evaluated) is destroyed
       recursively;
@@ -108,6 +108,10 @@ def matching (db : DB) (k : Nat) (cols : List Nat) (i : Nat) : List Row :=
 def hasPolicy (S : Schema) (k : Nat) (cols : List Nat) (p : Policy) : Bool :=
   cols.any fun f => (S.fk k f).policy == p
 
+/-- the `cascade=False` columns among `cols` (the `restrict` list of `destroySelf`) -/
+def restrictCols (S : Schema) (k : Nat) (cols : List Nat) : List Nat :=
+  cols.filter fun f => (S.fk k f).policy == .restrict
+
 /-- step 2e on one row -/
 def nullRow (S : Schema) (k : Nat) (cols : List Nat) (i : Nat) (r : Row) : Row :=
   if r.cls == k then
@@ -141,7 +145,7 @@ def procDep (S : Schema) (rec : DB → Nat → Nat → Res) (c i : Nat) (db : DB
   let db1 : DB := { db with links := delDepLinks S k c i db.links }
   let cols := depCols S c k
   if cols.isEmpty then .ok db1 else
-  if hasPolicy S k cols .restrict && !(matching db1 k cols i).isEmpty then .refused db1 else
+  if !(matching db1 k (restrictCols S k cols) i).isEmpty then .refused db1 else
   let db2 := nullRefs S db1 k cols i
   if hasPolicy S k cols .cascade then
     destroyRows rec k ((matching db2 k cols i).map (·.id)) db2
@@ -171,14 +175,5 @@ def destroy (S : Schema) : Nat → DB → Nat → Nat → Res
 
 /-- `Class.get(id)` afterwards: a cached instance is returned without looking at the table -/
 def reachable (db : DB) (c i : Nat) : Bool := db.cache.contains (c, i) || present db c i
-
-/-! ## Decidable classes of inputs used as hypotheses of the `_partial` theorems -/
-
-/-- no class has, towards one target class, a `cascade=False` key next to a key with another
-    policy (`True` / `'null'`) -/
-def unmixed (S : Schema) : Bool :=
-  (List.range S.length).all fun k => (List.range S.length).all fun c =>
-    !(hasPolicy S k (depCols S c k) .restrict) ||
-      (depCols S c k).all fun f => (S.fk k f).policy == .restrict
 
 end SqlObjVerif.Graph
